@@ -36,13 +36,26 @@ def trapz_np(y, x=None, dx=1.0, axis=-1):
     return t.sum(-1), np.abs(d * (np.abs(y[..., 1:]) + np.abs(y[..., :-1])) / 2.0).sum(-1)
 
 
-def interp_linear(xnew, x, y):
-    """own piece-wise linear interpolation of 1-D y(x) (x strictly ascending) at xnew, 0 outside."""
+def interp_linear(xnew, x, y, local_mag=False):
+    """own piece-wise linear interpolation of 1-D y(x) (x strictly ascending) at xnew, 0 outside.
+
+    With local_mag=True returns instead the local magnitude sum(|y|) over the bracketing knots and their
+    neighbours (the scale against which an interpolation error is judged)."""
     out = []
     n = len(x)
     for v in xnew:
         if v < x[0] or v > x[-1]:
             out.append(0.0)
+            continue
+        if local_mag:
+            lo, hi = 0, n - 1
+            while hi - lo > 1:
+                mid = (lo + hi) // 2
+                if x[mid] <= v:
+                    lo = mid
+                else:
+                    hi = mid
+            out.append(float(sum(abs(t) for t in y[max(lo - 1, 0):hi + 2])))
             continue
         # binary search for the segment
         lo, hi = 0, n - 1
